@@ -33,17 +33,26 @@ inline Ids collect(const cfg::World &w) {
 }
 
 // pick an id of the class: mostly valid, sometimes unknown, sometimes NULL (encoded as JSON null)
+// an id that is NOT in `v` but close to one that is: a configured id extended by a character, or cut by one
+inline std::string near_miss(Rng &r, const std::vector<std::string> &v, const char *fallback) {
+	if (v.empty()) return fallback;
+	const std::string &b = v[r.below(v.size())];
+	std::string c = r.coin() ? b + "x" : (b.size() > 1 ? b.substr(0, b.size() - 1) : b + "0");
+	for (auto &x : v) if (x == c) return fallback;
+	return c;
+}
 inline J pick(Rng &r, const std::vector<std::string> &v, int p_unknown = 120, int p_null = 50) {
 	uint64_t x = r.below(1000);
 	if (x < (uint64_t) p_null) return J();
-	if (v.empty() || x < (uint64_t) (p_null + p_unknown)) return J(std::string("nosuch") + std::to_string(r.below(3)));
+	if (v.empty() || x < (uint64_t) (p_null + p_unknown)) { if (r.chance(300)) return J(near_miss(r, v, "nosuch9")); return J(std::string("nosuch") + std::to_string(r.below(3))); }
 	return J(v[r.below(v.size())]);
 }
 inline J pick_aspect(Rng &r, const Ids &d, const J &acc) {
 	uint64_t x = r.below(1000);
 	if (x < 40) return J();
-	if (!acc.is_str() || !d.aspects.count(acc.s) || x < 140) return J(std::string("noaspect"));
+	if (!acc.is_str() || !d.aspects.count(acc.s) || x < 100) return J(std::string("noaspect"));
 	const auto &v = d.aspects.at(acc.s);
+	if (x < 180) return J(near_miss(r, v, "noaspect"));
 	return J(v[r.below(v.size())]);
 }
 
